@@ -47,6 +47,7 @@ func c07Table() []GuardReq {
 	// root(leafIndex, filesize, leafHash(leafIndex, filesize, Leaf), Proof): closures or named helpers, any
 	// argument order, the state as an optional extra argument
 	stOpt := []*regexp.Regexp{regexp.MustCompile(pat("%ST%"))}
+	r.Skip = pats(fceSP + ".Filesize == const:0") // the same exemption tested directly on the committed size
 	r.LFn = func(a string) bool {
 		leafHash := func(b string) bool {
 			return callArgSet(b, []func(string) bool{reMatcher(li), reMatcher(fceSP + ".Filesize"), reMatcher("%T1%.StorageProofs[*].Leaf")}, stOpt)
@@ -75,6 +76,7 @@ func runC07(c *Ctx) {
 	}
 	runGuardTable(c, "contract-guard", ge, tab)
 	c.Min("contract-guard", len(tab))
+	c07ChallengeReduction(c)
 	valueSources(c, ge, "payout", map[string]bool{"v1-storage-proof-valid-outputs": true, "v1-expiry-missed-outputs": true, "v2-resolution-renter": true, "v2-resolution-host": true})
 	// totals fixed: the value-preservation equations
 	cache := map[string][]Guard{}
